@@ -27,7 +27,8 @@ type ent struct {
 	Mock func(b *mocker.Builder, via, pkg, raw, m string, k int)
 }
 
-const ownPkg = "github.com/tencent/goom/internal/zzverif/c06/pa"
+// wireBase is what '@' abbreviates in the operation stream.
+const wireBase = "github.com/tencent/goom/internal/zzverif/c06"
 
 // expected original result of the call just made (the generated call function has set w.WantA)
 func expect(e *ent) int64 {
@@ -175,7 +176,7 @@ func TestVerifC06(t *testing.T) {
 			if tk == "|" {
 				break
 			}
-			steps = append(steps, tk)
+			steps = append(steps, strings.ReplaceAll(tk, "@", wireBase))
 		}
 		out.Put(op.Idx, "%s", runHist(steps))
 	}
